@@ -100,13 +100,13 @@ Proof. split; vm_compute; reflexivity. Qed.
 Lemma err_seg_piece : forall e, data_piece (err_seg KSafe e).
 Proof. intros [[|] m]; split; vm_compute; reflexivity. Qed.
 
-Lemma peer_row_piece : forall base focus p, data_piece (peer_row KSafe base focus p).
+Lemma peer_row_piece : forall base focus p, data_piece (peer_row KDq base focus p).
 Proof.
   intros base focus [[[[a b] c] d] asn]. unfold peer_row.
   destruct focus as [k|]; [destruct (str_eqb k _)|]; split; vm_compute; reflexivity.
 Qed.
 
-Lemma peers_table_piece : forall base focus r, data_piece (peers_table KSafe base focus r).
+Lemma peers_table_piece : forall base focus r, data_piece (peers_table KDq base focus r).
 Proof.
   intros base focus r. unfold peers_table. destruct (r_tlvs r); [|apply data_piece_nil].
   apply data_piece_app; [split; vm_compute; reflexivity|].
@@ -138,14 +138,14 @@ Proof.
 Qed.
 
 Lemma peer_row_shape : forall b1 b2 focus p,
-  same_shape (peer_row KSafe b1 focus p) (peer_row KSafe b2 focus p) = true.
+  same_shape (peer_row KDq b1 focus p) (peer_row KDq b2 focus p) = true.
 Proof.
   intros b1 b2 focus [[[[a b] c] d] asn]. unfold peer_row.
   destruct focus as [k|]; [destruct (str_eqb k _)|]; vm_compute; rewrite ?str_eqb_refl; reflexivity.
 Qed.
 
 Lemma peer_rows_shape : forall b1 b2 focus ps,
-  same_shape (flat_map (peer_row KSafe b1 focus) ps) (flat_map (peer_row KSafe b2 focus) ps) = true.
+  same_shape (flat_map (peer_row KDq b1 focus) ps) (flat_map (peer_row KDq b2 focus) ps) = true.
 Proof.
   intros b1 b2 focus ps. induction ps as [|p ps IH]; [reflexivity|].
   cbn [flat_map]. apply same_shape_app; [apply peer_row_shape | exact IH].
@@ -282,25 +282,25 @@ Proof.
   unfold prom_label. cbn [fst snd]. rewrite <- !app_assoc.
   assert (Hn' : forallb is_name_char n = true) by (unfold prom_name_ok in Hn; now apply andb_true_iff in Hn as [Hn _]).
   rewrite pfold_name by assumption. cbn [app].
-  change (lit "=""") with [c_eq; c_dq]. cbn [app]. rewrite !pfold_cons.
-  change (prom_step (MkP PName n [] out) c_eq) with (MkP PAfterEq n [] out).
-  change (prom_step (MkP PAfterEq n [] out) c_dq) with (MkP PVal n [] out).
-  rewrite pfold_val by assumption. change (lit """") with [c_dq]. cbn [app]. rewrite pfold_cons.
+  cbn [app]. rewrite !pfold_cons.
+  assert (E1 : prom_step (prom_step (MkP PName n [] out) 61) 34 = MkP PVal n [] out) by reflexivity.
+  rewrite E1. rewrite pfold_val by assumption. cbn [app]. rewrite pfold_cons.
   reflexivity.
 Qed.
 
 Lemma pfold_labels : forall ls nv out, label_ok nv = true -> forallb label_ok ls = true ->
-  pfold (join (lit ",") (map prom_label (nv :: ls)) ++ lit "}") (MkP PName [] [] out)
+  pfold (join ([44]) (map prom_label (nv :: ls)) ++ [125]) (MkP PName [] [] out)
   = MkP PDone [] [] (out ++ nv :: ls).
 Proof.
   induction ls as [|nv2 ls IH]; intros nv out H Hls.
   - cbn [map join]. rewrite pfold_label by assumption. reflexivity.
   - cbn [forallb] in Hls. apply andb_true_iff in Hls as [H2 Hls].
-    change (join (lit ",") (map prom_label (nv :: nv2 :: ls)))
-      with (prom_label nv ++ lit "," ++ join (lit ",") (map prom_label (nv2 :: ls))).
+    change (join ([44]) (map prom_label (nv :: nv2 :: ls)))
+      with (prom_label nv ++ [44] ++ join ([44]) (map prom_label (nv2 :: ls))).
     rewrite <- !app_assoc. rewrite pfold_label by assumption.
-    change (lit ",") with [44]. cbn [app]. rewrite pfold_cons.
-    change (prom_step (MkP PAfterVal [] [] (out ++ [nv])) 44) with (MkP PName [] [] (out ++ [nv])).
+    cbn [app]. rewrite pfold_cons.
+    assert (E1 : prom_step (MkP PAfterVal [] [] (out ++ [nv])) 44 = MkP PName [] [] (out ++ [nv])) by reflexivity.
+    rewrite E1.
     rewrite IH by assumption. now rewrite <- app_assoc.
 Qed.
 
@@ -308,9 +308,9 @@ Theorem prom_labels_roundtrip : forall nv ls, forallb label_ok (nv :: ls) = true
   prom_parse (prom_labels (nv :: ls)) = Some (nv :: ls).
 Proof.
   intros nv ls H. cbn [forallb] in H. apply andb_true_iff in H as [H Hls].
-  unfold prom_parse, prom_labels. change (lit "{") with [123]. cbn [app].
-  change (fold_left prom_step (123 :: ?l) ?s) with (pfold l (prom_step s 123)).
-  change (prom_step (MkP PStart [] [] []) 123) with (MkP PName [] [] []).
+  unfold prom_parse, prom_labels. cbn [app fold_left].
+  assert (E1 : prom_step (MkP PStart [] [] []) 123 = MkP PName [] [] []) by reflexivity.
+  rewrite E1. change (fold_left prom_step ?l ?s) with (pfold l s).
   rewrite pfold_labels by assumption. reflexivity.
 Qed.
 
